@@ -22,6 +22,7 @@ const modPath = "github.com/mosaicnetworks/babble"
 // Prog is one loaded configuration of the repository: type-checked packages,
 // SSA form and a VTA call graph.
 type Prog struct {
+	sites      map[*ssa.Function][]ssa.CallInstruction // static call sites of module functions (built lazily)
 	inlineMemo map[calleeKey][]uint32 // per top-level pathMasks call: masks a helper's success returns may carry
 	inlining map[*ssa.Function]bool // helpers currently being looked into by the path engine (recursion guard)
 	Dir   string
@@ -107,6 +108,7 @@ func loadProg(dir, tags string, needCG bool) (*Prog, error) {
 		p.CG = vta.CallGraph(p.All, cha.CallGraph(prog))
 		p.CGS = time.Since(t2).Seconds()
 	}
+	gProg = p
 	return p, nil
 }
 
@@ -271,3 +273,61 @@ func fnName(f *ssa.Function) string {
 	s = strings.ReplaceAll(s, modPath+"/", "")
 	return s
 }
+
+// gProg: the program being analysed (one at a time); the value relations use it to cross calls.
+var gProg *Prog
+
+// callSitesOf: the static call sites (call, go, defer) of module function f inside the module.
+func callSitesOf(f *ssa.Function) []ssa.CallInstruction {
+	p := gProg
+	if p == nil || f == nil {
+		return nil
+	}
+	if p.sites == nil {
+		p.sites = map[*ssa.Function][]ssa.CallInstruction{}
+		for _, fn := range p.Mod {
+			for _, b := range fn.Blocks {
+				for _, in := range b.Instrs {
+					if ci, ok := in.(ssa.CallInstruction); ok {
+						if sc := ci.Common().StaticCallee(); sc != nil {
+							p.sites[sc] = append(p.sites[sc], ci)
+						}
+					}
+				}
+			}
+		}
+	}
+	return p.sites[f]
+}
+
+// moduleCallee: the statically known module function called by v's defining call (v is the call
+// value or an Extract of it), and the result index.
+func moduleCallee(v ssa.Value) (*ssa.Call, *ssa.Function, int) {
+	c, idx := callOf(v)
+	if c == nil {
+		return nil, nil, 0
+	}
+	f := c.Call.StaticCallee()
+	if f == nil || !inModule(f) || len(f.Blocks) == 0 {
+		return nil, nil, 0
+	}
+	if idx < 0 {
+		idx = 0
+	}
+	if idx >= f.Signature.Results().Len() {
+		return nil, nil, 0
+	}
+	return c, f, idx
+}
+
+func paramIndex(pv *ssa.Parameter) int {
+	for i, q := range pv.Parent().Params {
+		if q == pv {
+			return i
+		}
+	}
+	return -1
+}
+
+// maxCallDepth bounds how many calls the value relations descend into / climb out of.
+const maxCallDepth = 3
